@@ -117,7 +117,7 @@ def gen_case(rng):
     ou = rng.choice(["m", "km", "degC", "K", "", "m/s", "s", "mm", "mm", "Hz", "Hz", "L/m^2", "1/s"])
     compat = [u for u in UNITS if UNITS[u][0] == UNITS[ou][0]]
     iu = rng.choice(compat) if rng.random() < 0.9 else rng.choice(list(UNITS))
-    scale = rng.choice([1, 1, 1, 7, 1000, 3_600_000_000])
+    scale = rng.choice([1, 1, 1, 7, 1000, 3_600_000_000, 43_200_000_000, 86_400_000_000])  # up to half-day and day units: gaps of several days
     events, t, val = [], rng.randrange(0, 3) * scale, 1
     pubs = []
     last_req = None
